@@ -321,10 +321,11 @@ func (s MsgServer) UnbondedOracle(c context.Context, msg *types.MsgUnbondedOracl
 	}
 	balances := s.bankKeeper.GetAllBalances(ctx, delegateAddr)
 	slashAmount := types.NewDelegateAmount(oracle.GetSlashAmount(s.GetSlashFraction(ctx)))
+	// the staking module may have slashed the validator since: never charge more than what matured
+	if have := balances.AmountOf(slashAmount.Denom); have.LT(slashAmount.Amount) {
+		slashAmount = types.NewDelegateAmount(have)
+	}
 	if slashAmount.IsPositive() {
-		if balances.AmountOf(slashAmount.Denom).LT(slashAmount.Amount) {
-			return nil, types.ErrInvalid.Wrapf("not sufficient slash amount")
-		}
 		if err = s.bankKeeper.SendCoinsFromAccountToModule(ctx, delegateAddr, s.moduleName, sdk.NewCoins(slashAmount)); err != nil {
 			return nil, err
 		}
